@@ -339,7 +339,7 @@ func TestModel(t *testing.T) {
 		lastWasPub := map[gen.Atom]bool{}
 		// swarm: each case has its own mixture of operation kinds
 		var bag []string
-		for _, k := range []string{"register", "publish", "delegate", "wrong", "sub", "unsub", "unregister", "unregister-foreign", "kill-producer", "kill-consumer"} {
+		for _, k := range []string{"register", "publish", "delegate", "wrong", "sub", "sub-both", "unsub", "unregister", "unregister-foreign", "kill-producer", "kill-consumer"} {
 			wgt := rapid.SampledFrom([]int{0, 1, 1, 2, 4}).Draw(t, "weight")
 			if (k == "register" || k == "publish" || k == "sub") && wgt == 0 {
 				wgt = 2
@@ -347,6 +347,63 @@ func TestModel(t *testing.T) {
 			for i := 0; i < wgt; i++ {
 				bag = append(bag, k)
 			}
+		}
+		doSub := func(e *evModel, c int, link bool) {
+			if !w.consumers[c].alive {
+				return
+			}
+			if _, has := e.subs[c]; has {
+				return
+			}
+			var last []gen.MessageEvent
+			var err error
+			w.inProc(w.consumers[c], func(a *kit.Actor) {
+				if link {
+					last, err = a.LinkEvent(w.ev(e))
+				} else {
+					last, err = a.MonitorEvent(w.ev(e))
+				}
+			})
+			if !e.registered {
+				if err == nil {
+					w.fatalf("subscribing to the unregistered event %s succeeded", e.name)
+				}
+				w.logf("sub-unknown(%s,c%d)", e.name, c)
+				return
+			}
+			if err != nil {
+				w.fatalf("consumer c%d could not subscribe (link=%v) to %s: %v", c, link, e.name, err)
+			}
+			want := e.hist
+			if len(want) > e.buf {
+				want = want[len(want)-e.buf:]
+			}
+			var got []int
+			for _, m := range last {
+				if p, ok := m.Message.(Pub); ok && m.Event.Name == e.name {
+					got = append(got, p.Seq)
+				} else {
+					w.fatalf("subscribe to %s returned a foreign message %#v", e.name, m)
+				}
+			}
+			if fmt.Sprint(got) != fmt.Sprint(want) {
+				w.fatalf("consumer c%d subscribing to %s (buffer %d, published %v) was handed %v, expected %v", c, e.name, e.buf, e.hist, got, want)
+			}
+			if len(e.subs) == 0 && e.notify {
+				w.expProd[e.owner] = append(w.expProd[e.owner], note{"start:" + string(e.name), false})
+			}
+			if link {
+				e.subs[c] = "link"
+			} else {
+				e.subs[c] = "mon"
+			}
+			if lastWasPub[e.name] && e.buf > 0 {
+				w.subBetweenPubs = true
+			}
+			if len(e.subs) > w.maxSubs {
+				w.maxSubs = len(e.subs)
+			}
+			w.logf("sub(%s,c%d,link=%v)->%v", e.name, c, link, got)
 		}
 		for s := 0; s < steps; s++ {
 			w.step = s
@@ -435,61 +492,15 @@ func TestModel(t *testing.T) {
 			case "sub":
 				c := rapid.IntRange(0, len(w.consumers)-1).Draw(t, "consumer")
 				link := rapid.Bool().Draw(t, "link")
-				if !w.consumers[c].alive {
-					continue
+				doSub(e, c, link)
+			case "sub-both":
+				// one consumer subscribes to both events the same way (its termination must then be accounted for in each of them)
+				c := rapid.IntRange(0, len(w.consumers)-1).Draw(t, "consumer")
+				link := rapid.Bool().Draw(t, "link")
+				for _, x := range w.events {
+					doSub(x, c, link)
+					w.sync()
 				}
-				if _, has := e.subs[c]; has {
-					continue
-				}
-				var last []gen.MessageEvent
-				var err error
-				w.inProc(w.consumers[c], func(a *kit.Actor) {
-					if link {
-						last, err = a.LinkEvent(w.ev(e))
-					} else {
-						last, err = a.MonitorEvent(w.ev(e))
-					}
-				})
-				if !e.registered {
-					if err == nil {
-						w.fatalf("subscribing to the unregistered event %s succeeded", e.name)
-					}
-					w.logf("sub-unknown(%s,c%d)", e.name, c)
-					continue
-				}
-				if err != nil {
-					w.fatalf("consumer c%d could not subscribe (link=%v) to %s: %v", c, link, e.name, err)
-				}
-				want := e.hist
-				if len(want) > e.buf {
-					want = want[len(want)-e.buf:]
-				}
-				var got []int
-				for _, m := range last {
-					if p, ok := m.Message.(Pub); ok && m.Event.Name == e.name {
-						got = append(got, p.Seq)
-					} else {
-						w.fatalf("subscribe to %s returned a foreign message %#v", e.name, m)
-					}
-				}
-				if fmt.Sprint(got) != fmt.Sprint(want) {
-					w.fatalf("consumer c%d subscribing to %s (buffer %d, published %v) was handed %v, expected %v", c, e.name, e.buf, e.hist, got, want)
-				}
-				if len(e.subs) == 0 && e.notify {
-					w.expProd[e.owner] = append(w.expProd[e.owner], note{"start:" + string(e.name), false})
-				}
-				if link {
-					e.subs[c] = "link"
-				} else {
-					e.subs[c] = "mon"
-				}
-				if lastWasPub[e.name] && e.buf > 0 {
-					w.subBetweenPubs = true
-				}
-				if len(e.subs) > w.maxSubs {
-					w.maxSubs = len(e.subs)
-				}
-				w.logf("sub(%s,c%d,link=%v)->%v", e.name, c, link, got)
 			case "unsub":
 				c := rapid.IntRange(0, len(w.consumers)-1).Draw(t, "consumer")
 				kind, has := e.subs[c]
@@ -555,7 +566,20 @@ func TestModel(t *testing.T) {
 				}
 				w.logf("kill-producer(%s,crash=%v)", p.label, crash)
 			case "kill-consumer":
-				c := rapid.IntRange(0, len(w.consumers)-1).Draw(t, "consumer")
+				// consumers holding several subscriptions are preferred victims
+				cands := []int{0, 1, 2, 3}
+				for i := range w.consumers {
+					n := 0
+					for _, x := range w.events {
+						if _, has := x.subs[i]; has && x.registered {
+							n++
+						}
+					}
+					if n >= 2 {
+						cands = append(cands, i, i)
+					}
+				}
+				c := rapid.SampledFrom(cands).Draw(t, "consumer")
 				p := w.consumers[c]
 				if !p.alive {
 					continue
